@@ -204,7 +204,7 @@ def _check(pid, tier, seed, entries, tmp, t0, level, extra_assumptions):
     json.dump(ovmap, open(ovfile, "w"))
     known = load_known()
     results = []
-    with ThreadPoolExecutor(max_workers=max(2, NCPU - 2)) as ex:
+    with ThreadPoolExecutor(max_workers=max(2, NCPU // 2)) as ex:  # each gosym drives its own z3: two processes per worker
         futs = []
         for e in entries:
             o, jobs = gosym_jobs(e, tier)
